@@ -15,6 +15,8 @@ import (
 func init() {
 	em := "internal/backends/compiler_wat/wir/instruction_emitter.go"
 	register(&Property{ID: "C01", Run: runC01, Mutants: []Mutant{
+		{Name: "named results reloaded after defers only for a bare return", File: "internal/ssa/builder.go", Old: "\t\tfn.emit(new(RunDefers))\n\t\tif fn.namedResults != nil {", New: "\t\tfn.emit(new(RunDefers))\n\t\tif fn.namedResults != nil && len(results) == 0 {", Expect: "named-results-around-defers"},
+		{Name: "deferred calls run before the return operands are stored", File: "internal/ssa/builder.go", Old: "\t\t// Run function calls deferred in this\n\t\t// function when explicitly returning from it.\n\t\tfn.emit(new(RunDefers))\n\t\tif fn.namedResults != nil {", New: "\t\tif fn.namedResults != nil {", Expect: "named-results-around-defers"},
 		{Name: "append reallocates when it exactly fills the capacity", File: "internal/backends/compiler_wat/wir/value_slice.go", Old: "\tf.Insts = append(f.Insts, x.ExtractByName(\"c\").EmitPush()...)\n\tf.Insts = append(f.Insts, wat.NewInstLe(wat.U32{}))", New: "\tf.Insts = append(f.Insts, x.ExtractByName(\"c\").EmitPush()...)\n\tf.Insts = append(f.Insts, wat.NewInstLt(wat.U32{}))", Expect: "append-in-place-threshold"},
 		{Name: "unsigned division formats as div_s", File: "internal/backends/compiler_wat/wir/wat/instruction_arith.go", Old: "sb.WriteString(\"i32.div_u\")", New: "sb.WriteString(\"i32.div_s\")", Expect: "mnemonic-by-type :: instDiv"},
 		{Name: "u64 shr formats arithmetic", File: "internal/backends/compiler_wat/wir/wat/instruction_bit.go", Old: "sb.WriteString(\"i64.shr_u\")", New: "sb.WriteString(\"i64.shr_s\")", Expect: "mnemonic-by-type :: instShr"},
@@ -26,7 +28,7 @@ func init() {
 		{Name: "mixed-width shift extends signed", File: em, Old: "\t\t\tinsts = append(insts, wat.NewInstConvert_i64_extend_i32_u())\n\t\t\tinsts = append(insts, wat.NewInstShr(toWatType(ret_type)))", New: "\t\t\tinsts = append(insts, wat.NewInstConvert_i32_wrap_i64())\n\t\t\tinsts = append(insts, wat.NewInstShr(toWatType(ret_type)))", Expect: "shift-count-adaptation :: Shr"},
 		{Name: "u32 -> i64 sign-extends", File: em, Old: "\t\tcase xt.Equal(m.U8), xt.Equal(m.U16), xt.Equal(m.U32):\n\t\t\tinsts = append(insts, wat.NewInstConvert_i64_extend_i32_u())\n\n\t\tcase xt.Equal(m.I64), xt.Equal(m.U64):\n\t\t\tbreak\n\n\t\tcase xt.Equal(m.F32):\n\t\t\tinsts = append(insts, wat.NewInstConvert_i64_trunc_f32_s())", New: "\t\tcase xt.Equal(m.U8), xt.Equal(m.U16), xt.Equal(m.U32):\n\t\t\tinsts = append(insts, wat.NewInstConvert_i64_extend_i32_s())\n\n\t\tcase xt.Equal(m.I64), xt.Equal(m.U64):\n\t\t\tbreak\n\n\t\tcase xt.Equal(m.F32):\n\t\t\tinsts = append(insts, wat.NewInstConvert_i64_trunc_f32_s())", Expect: "conversion :: U32->I64"},
 		{Name: "f64 -> f32 promotes", File: em, Old: "insts = append(insts, wat.NewInstConvert_f32_demote_f64())", New: "insts = append(insts, wat.NewInstConvert_f64_promote_f32())", Expect: "conversion :: F64->F32"},
-		{Name: "i64 constant parsed with 32 bits", File: "internal/backends/compiler_wat/wir/value_basic.go", Old: "strconv.ParseInt(v.Name(), 0, 64)", New: "strconv.ParseInt(v.Name(), 0, 32)", Expect: "const-bytes :: I64"},
+		{Name: "i64 constant parsed with 32 bits", File: "internal/backends/compiler_wat/wir/value_basic.go", Old: "i, _ := strconv.ParseInt(v.Name(), 0, 64)", New: "i, _ := strconv.ParseInt(v.Name(), 0, 32)", Expect: "const-bytes :: I64"},
 		{Name: "operands pushed in reverse for Sub", File: em, Old: "\tcase wat.OpCodeSub:\n\t\tret_type = x.Type()\n\t\tinsts = append(insts, x.EmitPushNoRetain()...)\n\t\tinsts = append(insts, y.EmitPushNoRetain()...)", New: "\tcase wat.OpCodeSub:\n\t\tret_type = x.Type()\n\t\tinsts = append(insts, y.EmitPushNoRetain()...)\n\t\tinsts = append(insts, x.EmitPushNoRetain()...)", Expect: "operand-order :: binop Sub"},
 		{Name: "convert constructor prints another mnemonic", File: "internal/backends/compiler_wat/wir/wat/instruction_convert.go", Old: "sb.WriteString(\"f64.convert_i32_u\")", New: "sb.WriteString(\"f64.convert_i32_s\")", Expect: "constructor-mnemonic :: instConvert_f64_convert_i32_u"},
 	}})
@@ -179,7 +181,8 @@ func runC01(c *Ctx) {
 		"(7) constant materialisation parses each kind with its own signedness and bit size; (8) the generated append helper reuses the backing array exactly when new_len <= cap (unsigned), which is what Go's append aliasing depends on. " +
 		"NOT decided: anything value-level; control flow, closures, the rest of slices, strings, maps, interfaces, defer; the runtime library."
 	c.Trusted = []string{"go/packages, go/types (x/tools v0.29.0)", "embedded WebAssembly instruction table", "Go conversion/operator semantics table in c01.go"}
-	p := c.Load(LoadOpt{Light: true}, "./internal/backends/compiler_wat/...")
+	p := c.Load(LoadOpt{Light: true}, "./internal/backends/compiler_wat/...", "./internal/ssa")
+	c01NamedResults(c, p, p.Pkg("internal/ssa"))
 	watPk := p.MustPkg("mnemonic-by-type", "internal/backends/compiler_wat/wir/wat")
 	wir := p.MustPkg("opcode-constructor", "internal/backends/compiler_wat/wir")
 	cw := p.MustPkg("operator-lowering", "internal/backends/compiler_wat")
